@@ -128,7 +128,12 @@ def body_hist(cube, **kw):
     k = cube['k']
     with notrace():
         g = new_graph()
-        nodes = add_nodes(g, ['defense', 'or', 'and'])
+        from maltoolbox.attackgraph import AttackGraphNode
+        nodes = []
+        for t, nm, i in (('defense', 'n0', 0), ('or', 'n1', 2), ('and', 'n2', 3)):
+            nd = AttackGraphNode(type=t, name=nm)
+            g.add_node(nd, node_id=i)
+            nodes.append(nd)
         nodes[0].defense_status = 1.0
         a = Attacker(name='a0'); g.add_attacker(a)
         st = {'seen_ids': [n.id for n in nodes], 'seen_names': [n.full_name for n in nodes]}
@@ -273,7 +278,7 @@ def queries(tier):
     pre = []
     qs = [Query(name='hist', body=body_hist, params=ps, cubes=[{'k': k}], split=['o0'] if k == 2 else ['o0', 'o1'],
                 pre=pre, timeout=500 if tier == 'quick' else 1700, witnesses=wits,
-                bound='hand-built 3-node graph (enabled defense -> or <-> and, self-loop on the or step), one attacker '
+                bound='hand-built 3-node graph with ids 0, 2, 3 (enabled defense -> or <-> and, self-loop on the or step), one attacker '
                       'optionally on node 1; every sequence of %d operations from %s with node/attacker/id arguments (ids from %s)' % (k, OPS, IDS))]
     kg = 2 if tier == 'quick' else 3
     ps = [B('l'), B('at')]
